@@ -74,6 +74,8 @@ class ExportConfig:
                 if isarray:
                     value = f"'{value}'"
                 elif isscalar:
+                    # DIP reads \" and \' as plain quote characters: keep a backslash that precedes a quote
+                    value = str(value).replace("\\\"","\\\\\"").replace("\\'","\\\\'")
                     value = f"\"{value}\""
             elif isinstance(param, BooleanType):
                 dtype = BooleanNode.keyword
